@@ -8,6 +8,10 @@ R1 expansion only for lost data (`ProvenanceGraph.build_graph`): the call that e
    `ProvenanceToken.is_available` is the tested value; a token without producers raises; every loaded
    producer is linked to the lost token and queued unless visited / queued - in a loop of build_graph itself or of
    a helper (resolved to one definition) that receives the producers, the token and the frontier as arguments.
+   `extract method`: when build_graph does not call `load_dependee_tokens` itself, a call of build_graph that resolves to
+   exactly one function of the module which does is analysed as the expansion (one level): its position relative to the
+   two tests is checked in build_graph, the token / frontier roles are the parameters bound to them (never re-bound),
+   the raise and the producer loop are checked in the helper (a normal return of the helper = going on).
    Nec.: expanding an available token re-executes a job whose outputs stayed available.
 R2 availability of file data (`FileToken.is_available` / `_is_path_available`): not recoverable ->
    only `return False`; a path without PRIMARY location -> only `return False`; no location passing
@@ -16,7 +20,10 @@ R2 availability of file data (`FileToken.is_available` / `_is_path_available`): 
    `exists()` on (path, location) of the examined data location, False when the check fails, and
    invalidates that location on every path where the result is False; composite tokens
    (ListToken/ObjectToken) are the conjunction over their members (the returned value is read through
-   temporaries: `tmp = all(...); return tmp`, flow-sensitive reaching definitions).
+   temporaries: `tmp = all(...); return tmp`, flow-sensitive reaching definitions).  The aggregate over the
+   locations may live in a helper coroutine of the module (one level): the helper must be awaited, iterate the
+   parameter bound to the data locations and return the builtin `any(...)` on every return; its call is then the
+   tested value in `is_available`.
 R3 steps selected for re-execution (`GraphMapper.get_step_ids`): ports of the failed step's own
    outputs are excluded (`not in output_port_names`, and the caller passes
    `failed_step.output_ports.values()`); steps having an input port outside the mapped ports are
